@@ -205,4 +205,53 @@ theorem reference_closeness (c : Comp) (hc : ∀ p ∈ c, p.1 ∈ refKeys) :
 
 example : ∀ p ∈ ([(kC, 34), (kH, 53), (kN, 7), (kO, 15)] : Comp), p.1 ∈ refKeys := by decide +kernel
 
+
+/-! ### precision -/
+
+open Pept.Mass in
+/-- **`precision` is applied last, on both code paths** (fast path and isotope-label / composition path): the result
+with `precision = p` is the rounding of the result with `precision = None`, errors unchanged -/
+theorem mass_precision_last (env : Env) (a : Annotation) (o : Opts) :
+    mass env a o = (mass env a { o with precision := none }).map (fun x => roundOpt x o.precision) := by
+  unfold mass massWith
+  have hr : resolveArgs a { o with precision := none } = resolveArgs a o := rfl
+  rw [hr]
+  cases resolveArgs a o with
+  | error e => rfl
+  | ok r =>
+    simp only [bind_ok]
+    cases hB : a.seq.contains 'B' with
+    | true => rfl
+    | false =>
+      cases hZ : a.seq.contains 'Z' with
+      | true => rfl
+      | false =>
+        simp only [Bool.false_eq_true, if_false]
+        cases hi : r.isotopeMods with
+        | none => exact fastMass_precision_last env a o r
+        | some l =>
+          cases l with
+          | nil => exact fastMass_precision_last env a o r
+          | cons m ms =>
+            simp only
+            cases CompCalc.compMass env a o.ion r.charge o.isotope r.adducts (some (m :: ms)) o.useIsotopeOnMods with
+            | error e => rfl
+            | ok cd =>
+              simp only [bind_ok]
+              cases chemMass o.mono cd.1 none with
+              | error e => rfl
+              | ok cmv => rfl
+
+open Pept.Mass in
+/-- hence, on both paths, `precision = p ≥ 0` moves the mass by at most half a unit of the last place -/
+theorem mass_precision_bound (env : Env) (a : Annotation) (o : Opts) (p : Nat) (x : Rat)
+    (hx : mass env a { o with precision := none } = .ok x) :
+    ∃ y, mass env a { o with precision := some (p : Int) } = .ok y ∧
+      y - x ≤ 1 / 2 / pow10 p ∧ x - y ≤ 1 / 2 / pow10 p := by
+  refine ⟨pyRound x (p : Int), ?_, pyRound_bound x p⟩
+  rw [mass_precision_last]
+  show (mass env a { o with precision := none }).map _ = _
+  rw [hx]
+  rfl
+
 end Pept.C02
